@@ -526,3 +526,270 @@ func init() {
 }
 
 var _ = strings.Contains
+
+func init() {
+	register(&Rule{
+		Name:  "ITER-SCRATCH",
+		Floor: 2,
+		Doc:   "where a stored-field record is accumulated in scratch that outlives the document loop (a bytes.Buffer for the meta part, a byte slice for the data part) and then handed to chunkedDocumentCoder.Add, on every path through one iteration that reaches the Add the buffer was Reset() and the slice restarted from [:0] (or freshly made) in that same iteration: a document that stores nothing can never be written with the previous document's record",
+		Run: func(c *Ctx, scope string, r *Report) {
+			for _, fn := range c.fnsCalling("(*chunkedDocumentCoder).Add") {
+				for _, add := range callsOf(fn, "(*chunkedDocumentCoder).Add") {
+					meta := argNamed(&add.Call, "metaBytes")
+					data := argNamed(&add.Call, "data")
+					if meta == nil || data == nil {
+						meta, data = add.Call.Args[2], add.Call.Args[3]
+					}
+					mc, ok := meta.(*ssa.Call)
+					if !ok || mc.Call.StaticCallee() == nil || funcFullName(mc.Call.StaticCallee()) != "bytes.(*Buffer).Bytes" {
+						continue // the record is a window of existing data, not accumulated scratch
+					}
+					bufPath := accessPath(mc.Call.Args[0])
+					// the innermost loop around the Add
+					var hdr *ssa.BasicBlock
+					for b := add.Block(); b != nil; b = b.Idom() {
+						if isLoopHeader(b) && loopBody(b)[add.Block()] {
+							hdr = b
+							break
+						}
+					}
+					key := fnName(fn) + "/record-scratch"
+					if hdr == nil {
+						r.undecided(key, fnName(fn), c.pos(add.Pos()), "the record is accumulated in scratch but the Add is not in a loop")
+						continue
+					}
+					body := loopBody(hdr)
+					paths, complete := iterPaths(hdr, hdr.Succs[0], body, 4000)
+					if !complete {
+						r.undecided(key, fnName(fn), c.pos(add.Pos()), "too many paths through the document loop")
+						continue
+					}
+					bad := ""
+					np := 0
+					for _, p := range paths {
+						idx := -1
+						for i, b := range p.blocks {
+							if b == add.Block() {
+								idx = i
+							}
+						}
+						if idx < 0 {
+							continue
+						}
+						np++
+						pre := p.blocks[:idx+1]
+						inPath := map[*ssa.BasicBlock]bool{}
+						for _, b := range pre {
+							inPath[b] = true
+						}
+						// (1) buffer reset in this iteration
+						reset := false
+						for _, b := range pre {
+							for _, ins := range b.Instrs {
+								if ci, ok := ins.(ssa.CallInstruction); ok {
+									if sc := ci.Common().StaticCallee(); sc != nil && funcFullName(sc) == "bytes.(*Buffer).Reset" && accessPath(ci.Common().Args[0]) == bufPath {
+										if b != add.Block() || instrIndex(ins) < instrIndex(add) {
+											reset = true
+										}
+									}
+								}
+							}
+						}
+						if !reset {
+							bad = "the meta buffer " + bufPath + " is not Reset() on the path " + blockList(pre) + " before the record is added: it still holds the previous document's meta data"
+							break
+						}
+						// (2) the data slice restarts in this iteration
+						var origin func(v ssa.Value, d int) string
+						origin = func(v ssa.Value, d int) string {
+							if d > 24 {
+								return "unknown"
+							}
+							v = resolveOnPath(v, hdr, pre)
+							switch x := v.(type) {
+							case *ssa.Phi:
+								if x.Block() == hdr {
+									return "carried"
+								}
+								// a phi outside the path prefix (inner loop cut): take its edges
+								worst := "fresh"
+								for _, e := range x.Edges {
+									if e == ssa.Value(x) {
+										continue
+									}
+									if o := origin(e, d+1); o != "fresh" {
+										worst = o
+									}
+								}
+								return worst
+							case *ssa.Slice:
+								if k, ok := constInt(x.High); ok && k == 0 && x.High != nil && inPath[x.Block()] {
+									return "fresh"
+								}
+								return origin(x.X, d+1)
+							case *ssa.MakeSlice:
+								return "fresh"
+							case *ssa.Const:
+								return "fresh"
+							case *ssa.UnOp:
+								// a load of a local cell (a variable captured by a closure lives in
+								// one): the value is what the path last stored into it
+								al, isAlloc := x.X.(*ssa.Alloc)
+								if x.Op != token.MUL || !isAlloc {
+									return "unknown"
+								}
+								bi := -1
+								for i, b := range pre {
+									if b == x.Block() {
+										bi = i
+									}
+								}
+								if bi < 0 {
+									return "unknown"
+								}
+								for i := bi; i >= 0; i-- {
+									b := pre[i]
+									from := len(b.Instrs) - 1
+									if i == bi {
+										from = instrIndex(x) - 1
+									}
+									for j := from; j >= 0; j-- {
+										if st, ok := b.Instrs[j].(*ssa.Store); ok && st.Addr == ssa.Value(al) {
+											return origin(st.Val, d+1)
+										}
+									}
+								}
+								return "carried"
+							case *ssa.Extract:
+								return origin(x.Tuple, d+1)
+							case *ssa.Call:
+								if bi, ok := x.Call.Value.(*ssa.Builtin); ok && bi.Name() == "append" {
+									return origin(x.Call.Args[0], d+1)
+								}
+								worst := "fresh"
+								n := 0
+								for _, a := range x.Call.Args {
+									if isByteSlice(a.Type()) {
+										n++
+										if o := origin(a, d+1); o != "fresh" {
+											worst = o
+										}
+									}
+								}
+								if n == 0 {
+									return "unknown"
+								}
+								return worst
+							}
+							return "unknown"
+						}
+						switch origin(data, 0) {
+						case "carried":
+							bad = "the data slice handed to Add is carried over from the previous iteration on the path " + blockList(pre) + " without being restarted from [:0]: the previous document's stored values are written again"
+						case "unknown":
+							bad = "cannot tell where the data slice handed to Add comes from on the path " + blockList(pre)
+						}
+						if bad != "" {
+							break
+						}
+					}
+					switch {
+					case bad != "" && strings.HasPrefix(bad, "cannot tell"):
+						r.undecided(key, fnName(fn), c.pos(add.Pos()), bad)
+					case bad != "":
+						r.bad(key, fnName(fn), c.pos(add.Pos()), bad)
+					case np == 0:
+						r.undecided(key, fnName(fn), c.pos(add.Pos()), "no path through the loop reaches the Add")
+					default:
+						r.ok(key, fnName(fn), c.pos(add.Pos()), fmt.Sprintf("%d paths to the Add: meta buffer Reset() and data restarted from [:0] in the same iteration", np))
+					}
+				}
+			}
+		},
+	})
+}
+
+func init() {
+	register(&Rule{
+		Name:   "EMPTY-SAFE",
+		Floor:  0,
+		ZeroOK: true,
+		Doc:    "a slice allocated in a function with a length that is not a constant (a document count, a field count: quantities that are 0 for empty segments and batches) is not indexed with a constant unless a dominating test establishes that it is long enough, or its length is by construction at least that constant plus one: zero-document segments and empty batches are valid inputs",
+		Run: func(c *Ctx, scope string, r *Report) {
+			for _, fn := range c.srcFns {
+				for _, b := range fn.Blocks {
+					for _, ins := range b.Instrs {
+						ia, ok := ins.(*ssa.IndexAddr)
+						if !ok {
+							continue
+						}
+						k, isK := constInt(ia.Index)
+						if !isK || k < 0 {
+							continue
+						}
+						mk, ok := ia.X.(*ssa.MakeSlice)
+						if !ok {
+							continue
+						}
+						if _, constLen := constInt(mk.Len); constLen {
+							continue
+						}
+						// only stores/loads through this address matter (not &x[0] handed on)
+						key := fnName(fn) + "/const-index-" + stableName(ia.X)
+						if lenAtLeast(mk.Len, k+1) {
+							r.ok(key, fnName(fn), c.pos(ia.Pos()), "the length is at least the index + 1 by construction")
+							continue
+						}
+						guarded := false
+						for d := b; d != nil && !guarded; d = d.Idom() {
+							idom := d.Idom()
+							if idom == nil {
+								break
+							}
+							ifi, ok := idom.Instrs[len(idom.Instrs)-1].(*ssa.If)
+							if !ok {
+								continue
+							}
+							bin, ok := ifi.Cond.(*ssa.BinOp)
+							if !ok {
+								continue
+							}
+							// a comparison that mentions the slice's length or its length operand
+							mentions := func(v ssa.Value) bool {
+								if v == mk.Len || stripConv(v) == stripConv(mk.Len) {
+									return true
+								}
+								if x, name, ok := lenOrCapOf(v); ok && name == "len" && x == ssa.Value(mk) {
+									return true
+								}
+								return false
+							}
+							if (mentions(bin.X) || mentions(bin.Y)) && (d == idom.Succs[0] || d == idom.Succs[1]) && len(d.Preds) == 1 {
+								guarded = true
+							}
+						}
+						if guarded {
+							r.ok(key, fnName(fn), c.pos(ia.Pos()), "a dominating test of the length guards the constant index")
+						} else {
+							r.bad(key, fnName(fn), c.pos(ia.Pos()), fmt.Sprintf("element %d of a slice made with the variable length %s is accessed without a test that the slice is that long: for an empty input (zero documents / fields) this indexes out of range", k, exprSig(mk.Len, 0)))
+						}
+					}
+				}
+			}
+		},
+	})
+}
+
+// lenAtLeast: the length expression is provably >= n (n + something unsigned, or max-like forms).
+func lenAtLeast(v ssa.Value, n int64) bool {
+	v = stripConv(v)
+	if bin, ok := v.(*ssa.BinOp); ok && bin.Op == token.ADD {
+		if k, ok := constInt(bin.Y); ok && k >= n {
+			return true
+		}
+		if k, ok := constInt(bin.X); ok && k >= n {
+			return true
+		}
+	}
+	return false
+}
